@@ -6,8 +6,9 @@ Oracle on the implementation (independent of the model): for every observed page
    #column-header rows + #group heading rows (spanning rows, subline heading) + Σ data rows' line lower bound
    + #table-rendered footnote/source rows  ≤  nrow,
 unless the page holds a single data row.  The line lower bound of a data row is
-max over its cells of ⌈width(text, body font, body size) / column width⌉, measured here with the real
-get_string_width — not rtflite's own estimate.
+max over its cells of ⌈width(text shown in the cell, the cell's font, the cell's size) / the column's width⌉,
+measured here with the real get_string_width on the text read back from the output — not rtflite's own estimate,
+and whatever the dtype of the column.
 Known findings (known_findings.json): D3 auto-populated headers are rendered but not reserved; D4 page_by heading
 rows are reserved once per group start but rendered per level and again on every continuation page.  A page is
 excused only while its excess is within what the listed findings explain for that very page.
@@ -16,7 +17,7 @@ from __future__ import annotations
 
 import math
 
-from .. import common, laygen, layfamily, rtfread
+from .. import common, docgen, laygen, layfamily, rtfread
 
 MANIFEST = dict(
     text="Lean theorems over the pagination + layout model for every table: the reserved load of a page never exceeds "
@@ -24,9 +25,13 @@ MANIFEST = dict(
          "rows), every rendered page satisfies rows ≤ nrow + (headers rendered but not reserved) + (heading rows "
          "rendered beyond those reserved), the line estimate covers the text width, and the full statement is "
          "refuted by two concrete witnesses (recorded as known findings). Tied to the code by observation over body "
-         "fonts 1..10, sizes 6..24, all strategies and reservations.",
+         "fonts 1..10, sizes 6..24, all strategies and reservations, with data columns of every rendered dtype "
+         "(strings, integers, floats, booleans, dates, datetimes, times, decimals, categoricals, nulls) holding the "
+         "row's tallest cell.",
     note="The unchanged code violates C03 in two recorded classes (auto headers, page_by heading rows); the check "
-         "prints KNOWN-FINDING for them and reports any excess beyond what they explain. Pillow widths are measured.",
+         "prints KNOWN-FINDING for them and reports any excess beyond what they explain. Pillow widths are measured; "
+         "the text measured for a data cell is the text the real output shows in that cell (read back from the RTF), "
+         "at the cell's own font, size and relative column width.",
     technique="Lean 4 proof (accumulator invariant of the greedy fill + reservation accounting) + observation oracle "
               "with explained-deviation known findings",
     design="7/C03",
@@ -34,34 +39,194 @@ MANIFEST = dict(
 
 RULE = ("single-section tagged tables, 0..60 rows with 1..4-line rows produced by text width at the body's font (1..10) "
         "and size (6..24), nrow 1..50, explicit / default / multi-row / absent headers, footnote and source in every "
-        "form and placement, all strategies; non-trivial = ≥ 2 pages with at least one page filled to within one row "
+        "form and placement, all strategies; plus tables whose data columns have non-string dtypes (Int64 / Int8 / "
+        "UInt64 / Float64 / Float32 / Boolean / Date / Datetime / Time / Decimal / Categorical, with nulls) in their "
+        "unformatted display forms (unrounded floats, 19-digit integers, microsecond timestamps), per-column fonts and "
+        "sizes, equal and unequal col_rel_width, portrait / landscape / narrow col_width, so that the tallest cell "
+        "of a row (1..6 lines) is a cell of each of those dtypes; non-trivial = ≥ 2 pages with at least one page filled to within one row "
         "of its capacity; distinct by (strategy, nrow, font, size, rows per page)")
 
 
-def line_lower_bound(spec, info, i):
+def line_lower_bound(spec, info, i, shown=None):
+    """⌈width / column width⌉ of the row's widest cell, every cell at its own font, size and column width.  The text
+    of a cell is the text the OUTPUT shows in it (`shown`, read back from the real RTF: whatever the dtype of the
+    column — string, integer, float, boolean, date, … — and however the renderer formats it), else the display
+    text computed from the frame (null → '')."""
     cols = spec["df"]["cols"]
     r = spec["df"]["rows"][i]
     nd = len(info["displayed"])
-    cw = info["col_total"] / nd
+    rel = laygen.displayed_rel(spec, info)
+    rel_sum = sum(rel)
+    if shown is not None and len(shown) != nd:
+        shown = None
     lb = 1
-    for c in info["displayed"]:
-        v = r[cols.index(c)]
-        t = "" if v is None else str(v)
-        body = spec.get("body") or {}
+    for k, c in enumerate(info["displayed"]):
         ci = cols.index(c)
+        v = r[ci]
+        t = shown[k] if shown is not None else ("" if v is None else docgen.cell_str(spec["df"], ci, v))
+        cw = info["col_total"] * rel[k] / rel_sum
+        body = spec.get("body") or {}
         w = laygen.measure(t, laygen.attr_at(body.get("text_font"), i, ci, 1),
                            laygen.attr_at(body.get("text_font_size"), i, ci, 9))
         lb = max(lb, math.ceil(w / cw - 1e-9))
     return lb
 
 
+# ---- typed data columns: every dtype the library renders can hold the row's tallest cell
+TYPED_KINDS = ["Int64", "Int8", "UInt64", "Float64", "Float32", "Boolean", "Date", "Datetime", "Time", "Decimal:6",
+               "Categorical"]
+_SHORT = ("Boolean", "Int8", "Date", "Time")
+_SIZES = [24, 18, 14, 12, 10, 9, 8, 7.5, 6]
+_PHRASES = ["not evaluable at this visit", "see listing 16.2.7", "a somewhat longer remark that wraps in a narrow column"]
+
+
+def typed_value(rng, dt, wide):
+    """JSON cell of dtype dt; `wide`: the long display forms of the dtype (unrounded floats, large integers,
+    microsecond timestamps, …) — what a column of real numbers / dates looks like when nobody formatted it"""
+    if dt == "Int64":
+        return rng.choice([-1, 1]) * rng.randrange(10 ** 11, 9 * 10 ** 18) if wide else rng.randint(-99, 999)
+    if dt == "Int8":
+        return rng.randint(-128, -100) if wide else rng.randint(0, 99)
+    if dt == "UInt64":
+        return rng.randrange(10 ** 15, 18 * 10 ** 18) if wide else rng.randint(0, 500)
+    if dt == "Float64":
+        if not wide:
+            return round(rng.uniform(-100, 100), 1)
+        return rng.choice([rng.random(), rng.randint(1, 50) / 3, 0.1 + 0.2, rng.uniform(-1e6, 1e6),
+                           rng.random() * 1e-7, rng.random() * 1e22, -rng.randint(1, 7) / 7])
+    if dt == "Float32":
+        return rng.choice([0.1, 0.2, 0.3, rng.random(), rng.randint(1, 50) / 3]) if wide \
+            else rng.choice([0.5, 2.5, -1.25, 8.0, 100.0])
+    if dt == "Boolean":
+        return rng.random() < 0.5
+    if dt == "Date":
+        return "%04d-%02d-%02d" % (rng.randint(1990, 2030), rng.randint(1, 12), rng.randint(1, 28))
+    if dt == "Datetime":
+        d = "%04d-%02d-%02d" % (rng.randint(1990, 2030), rng.randint(1, 12), rng.randint(1, 28))
+        if not wide:
+            return d + "T00:00:00"
+        return d + "T%02d:%02d:%02d.%06d" % (rng.randint(0, 23), rng.randint(0, 59), rng.randint(0, 59),
+                                             rng.randint(1, 999999))
+    if dt == "Time":
+        t = "%02d:%02d:%02d" % (rng.randint(0, 23), rng.randint(0, 59), rng.randint(0, 59))
+        return t + ".%06d" % rng.randint(1, 999999) if wide else t
+    if dt.startswith("Decimal"):
+        k = int(dt.split(":")[1])
+        whole = rng.randrange(10 ** 12, 10 ** 16) if wide else rng.randint(0, 99)
+        return "%d.%0*d" % (whole, k, rng.randrange(10 ** k))
+    if dt == "Categorical":
+        return rng.choice(_PHRASES) if wide else rng.choice(["x", "ok", "n/a"])
+    raise ValueError(dt)
+
+
+def typed_columns(rng, spec, info):
+    """Turn the data columns after the first (which keeps the row tags) into columns of non-string dtypes, with
+    per-column font sizes / fonts and (half of the documents) unequal col_rel_width, such that in many rows the
+    tallest cell is a cell of a typed column.  Row heights stay within 1..6 lines."""
+    cols = spec["df"]["cols"]
+    rows = spec["df"]["rows"]
+    first = len(info["hier"])
+    ncols = len(cols)
+    body = spec["body"]
+    typed = {}
+    kinds = list(TYPED_KINDS)
+    rng.shuffle(kinds)
+    for n_, j in enumerate(range(first + 1, ncols)):
+        typed[cols[j]] = kinds[n_ % len(kinds)]
+    spec["df"]["dtypes"] = dict(typed)
+    if rng.random() < 0.5:
+        rel = [1] * ncols
+        rel[first] = rng.choice([1, 2, 3])
+        for j in range(first + 1, ncols):
+            rel[j] = rng.choice([0.5, 0.75, 1, 1, 1.5])
+            if typed[cols[j]] in _SHORT and rng.random() < 0.6:
+                rel[j] = rng.choice([0.2, 0.3, 0.5])      # 'True', '-128', a date: tall only in a narrow column
+        body["col_rel_width"] = rel
+    rel = laygen.displayed_rel(spec, info)
+    width = {c: info["col_total"] * rel[k] / sum(rel) for k, c in enumerate(info["displayed"])}
+    sizes = [info["size"]] * ncols
+    fonts = [info["font"]] * ncols
+    for j in range(first + 1, ncols):
+        fonts[j] = rng.choice([info["font"], rng.randint(1, 10)])
+        sizes[j] = rng.choice([24, 18, 14, 12, 9, 9, 7.5, 6])
+    wide_p = rng.choice([0.15, 0.3, 0.6])
+    for i, r in enumerate(rows):
+        r[first] = f"r{i}c0"
+        jw = rng.randrange(first + 1, ncols) if rng.random() < wide_p else None
+        for j in range(first + 1, ncols):
+            r[j] = None if rng.random() < 0.08 else typed_value(rng, typed[cols[j]], j == jw)
+    # keep every typed cell within 6 lines: step the column's size down
+    for j in range(first + 1, ncols):
+        def worst(sz):
+            return max([laygen.measure(docgen.cell_str(spec["df"], j, r[j]), fonts[j], sz) for r in rows] or [0.0])
+        if typed[cols[j]] in _SHORT and rng.random() < 0.6:
+            # dtypes whose display text is always short: wrap them through the size of the column's font
+            fit = [sz for sz in _SIZES if 1.1 * width[cols[j]] < worst(sz) <= 5.8 * width[cols[j]]]
+            if fit:
+                sizes[j] = rng.choice(fit)
+        k = _SIZES.index(sizes[j])
+        while worst(_SIZES[k]) > 5.8 * width[cols[j]] and k + 1 < len(_SIZES):
+            k += 1
+        sizes[j] = _SIZES[k]
+    body["text_font_size"] = sizes
+    body["text_font"] = fonts
+    # which dtypes hold the strictly tallest cell of some row (≥ 2 lines)
+    tallest = set()
+    for i, r in enumerate(rows):
+        ln = {}
+        for c in info["displayed"]:
+            j = cols.index(c)
+            t = "" if r[j] is None else docgen.cell_str(spec["df"], j, r[j])
+            ln[c] = max(1, math.ceil(laygen.measure(t, fonts[j], sizes[j]) / width[c] - 1e-9))
+        top = max(ln.values())
+        if top >= 2:
+            tops = [c for c in ln if ln[c] == top]
+            if all(c in typed for c in tops):
+                tallest.update(typed[c] for c in tops)
+    info["typed"] = typed
+    info["typed_tallest"] = sorted(tallest)
+    info["col_rel"] = body.get("col_rel_width")
+
+
 class C03(layfamily.Family):
     prop, tag = "C03", "c03"
 
+    BASE = dict(quick=300, thorough=4000)
+    TYPED = dict(quick=120, thorough=1200)
+
     def ndocs(self, tier):
-        return 300 if tier == "quick" else 4000
+        t = "quick" if tier == "quick" else "thorough"
+        return self.BASE[t] + self.TYPED[t]
+
+    def gen_typed(self, rng, k, tier):
+        """documents k ≥ BASE: data columns of every rendered dtype (integers, floats, booleans, dates, datetimes,
+        times, decimals, categoricals; nulls in between), each at its own size / font / relative width"""
+        font = rng.choice([1, 1, 2, 3, 4, 5, 6, 7, 8, 9, 10])
+        size = rng.choice([9, 9, 6, 7.5, 8, 10, 12])
+        hm = ["explicit", "explicit2", "none", "default", "no_colheader"][k % 5]
+        # every other document has no component a known finding could explain an excess with (unless hm = default)
+        strategy = rng.choice(["plain", "plain", "subline"]) if k % 2 == 0 else None
+        geometry = rng.choice([None, None, "landscape", dict(col_width=rng.choice([3.5, 4.5, 5.5]))])
+        spec, info = laygen.gen_spec(rng, strategy=strategy, header_mode=hm, n=rng.randint(4, 60),
+                                     nrow=rng.randint(4, 40), font=font, size=size, ndata=rng.randint(2, 5),
+                                     geometry=geometry, long_rows=(k % 4 == 1))
+        typed_columns(rng, spec, info)
+        return spec, info
+
+    def labels(self, o):
+        info = o["info"]
+        if not info.get("typed"):
+            return []
+        out = ["typed-columns-doc"]
+        out += ["typed-col:" + d for d in sorted(set(info["typed"].values()))]
+        out += ["typed-tallest-cell:" + d for d in info.get("typed_tallest") or []]
+        if info.get("col_rel"):
+            out.append("typed-col_rel_width")
+        return out
 
     def gen(self, rng, k, tier):
+        if k >= self.BASE["quick" if tier == "quick" else "thorough"]:
+            return self.gen_typed(rng, k, tier)
         font = rng.choice([1, 1, 2, 3, 4, 5, 6, 7, 8, 9, 10])
         size = rng.choice([9, 9, 6, 7.5, 8, 10, 12, 14, 18, 24])
         hm = ["explicit", "explicit2", "none", "default", "no_colheader"][k % 5]
@@ -113,12 +278,18 @@ class C03(layfamily.Family):
         cols = spec["df"]["cols"]
         rows = spec["df"]["rows"]
         pb = info["page_by"] or []
+        raws = ob.get("_raw") or []
         for pno, blocks in enumerate(ob["pages"], 1):
             data = [b[1] for b in blocks if b[0] == "data"]
+            shown = {}
+            if pno - 1 < len(raws):
+                for b, rb in zip(blocks, raws[pno - 1]):
+                    if b[0] == "data" and rb is not None and getattr(rb, "kind", None) == "row":
+                        shown[b[1]] = [rtfread.para_text(c) for c in rb.cells]
             nh = sum(1 for b in blocks if b[0] == "colHeader")
             ng = sum(1 for b in blocks if b[0] in ("heading", "sublineHeading"))
             nf = sum(1 for b in blocks if b[0] in ("footnote", "source") and b[1] is True)
-            lines = sum(line_lower_bound(spec, info, i) for i in data if i < len(rows))
+            lines = sum(line_lower_bound(spec, info, i, shown.get(i)) for i in data if i < len(rows))
             total = nh + ng + nf + lines
             if total <= nrow or len(data) <= 1:
                 continue
